@@ -10,7 +10,9 @@
 //!  * correspondence: the recorded schedule, translated to `SL.Snap` steps (copy/open,
 //!    create/publish/unlink with the segment ids of the manifests captured at the publish
 //!    points), is run through the Lean model: predicted open outcome and copied manifest must
-//!    equal the implementation's; the monitor `openWindowProtected` is reported.
+//!    equal the implementation's; the monitored hypothesis `legalFrom` (schedule of the repaired
+//!    protocol: no publish inside a reader's window, i.e. the manifest read guard is held until
+//!    the last segment is open) must hold — it is the hypothesis of `reader_open_succeeds`.
 use super::c05::sched::{self, Ev, Strategy, Timing};
 use super::c05::{contents, exec_call, prefill, schema_json, IDS};
 use crate::idx;
@@ -61,6 +63,9 @@ fn reader_contents(r: &IndexReader) -> Result<BTreeMap<String, String>, String> 
 fn is_queue_op(c: &Value) -> bool {
   matches!(c["op"].as_str(), Some("add") | Some("delete"))
 }
+fn is_section_thread(calls: &[Value]) -> bool {
+  calls.iter().any(is_section_op)
+}
 fn is_section_op(c: &Value) -> bool {
   matches!(c["op"].as_str(), Some("add") | Some("delete") | Some("commit") | Some("compact") | Some("rollback"))
 }
@@ -104,7 +109,7 @@ impl Prop for C06 {
     "C06"
   }
   fn rule(&self) -> &'static str {
-    "quick: index with two prefilled segments; threads = one compaction, one commit (an add, an upsert and a delete queued beforehand, so old segments get tombstones and a segment is added), one reader open+search; ALL merges of the reader's steps (manifest copy, each segment open) with the writer-side steps (compaction: lock, segment written, published, old files removed, done; commit: lock, published, done) in both lock orders = 2 x 165 scripts, alternating filesystem / in-memory storage in thorough and every third case in quick; thorough adds random scripts with two readers, two compactions and two commits. non-trivial = a publish or cleanup step of another thread falls between the reader's call begin and call end; distinct = distinct case JSON"
+    "quick: index with two prefilled segments; threads = one compaction, one commit (an add, an upsert and a delete queued beforehand, so old segments get tombstones and a segment is added), one reader open+search; ALL merges of the reader's steps (manifest copy, each segment open) with the writer-side steps (compaction: lock, segment written, published, old files removed, done; commit: lock, published, done) in both lock orders = 2 x 165 scripts, alternating filesystem / in-memory storage in thorough and every third case in quick; thorough adds random scripts with two readers, two compactions and two commits. non-trivial = a writer section starts, publishes or cleans up between the reader's call begin and call end, or a writer thread was blocked (writer lock / manifest write lock behind the reader's read guard) during the run; distinct = distinct case JSON"
   }
   fn count(&self, tier: Tier) -> usize {
     tier.pick(2 * COMBOS, 4 * COMBOS + 600)
@@ -365,7 +370,10 @@ impl Prop for C06 {
         from = end;
         let copy = (begin..end).find(|i| tr[*i].thread == t && tr[*i].name == "reader.after_manifest_copy");
         let res = results[t].get(k).cloned().unwrap_or(json!(null));
-        let others_inside = (begin..end).any(|i| tr[i].thread != t && matches!(tr[i].name.as_str(), "commit.after_publish" | "compact.before_cleanup" | "compact.after_cleanup"));
+        // a writer section started, published or cleaned up during this reader's call, or a writer
+        // was parked behind this reader's manifest read guard
+        let others_inside = (begin..end).any(|i| tr[i].thread != t && (tr[i].kind == "enter" || matches!(tr[i].name.as_str(), "commit.after_publish" | "compact.after_segment" | "compact.before_cleanup" | "compact.after_cleanup")))
+          || (0..n).any(|u| u != t && run.was_blocked[u] && is_section_thread(&scheduled[u]));
         nontrivial |= others_inside;
         s.count(if res["open"] == "ok" { "open_ok" } else { "open_failed" });
         // -- finder --
@@ -426,6 +434,15 @@ impl Prop for C06 {
               }
               continue;
             }
+            // A publish recorded while this reader was in the middle of a granted step (not waiting
+            // at a pause point): in a run without missed deadlines only one thread runs at a time,
+            // except a thread that was blocked on a lock and is released by the running one — here
+            // the publisher was waiting for the manifest write lock behind this reader's read
+            // guard, so the reader's in-flight open came first.
+            if pending_open && i > begin && i < end && !e.paused.get(t).copied().unwrap_or(true) && matches!(e.name.as_str(), "commit.after_publish" | "compact.after_segment") {
+              steps.push(json!(["rd"]));
+              pending_open = false;
+            }
             match e.name.as_str() {
               "commit.after_publish" => {
                 if let Some(m) = &e.data {
@@ -472,6 +489,13 @@ impl Prop for C06 {
             s.disagree("driver", case, json!(null), m.clone());
           } else {
             s.count(if m["protected"] == json!(true) { "monitor_window_protected" } else { "monitor_window_unprotected" });
+            s.count(if m["legal"] == json!(true) { "monitor_protocol_legal" } else { "monitor_protocol_illegal" });
+            if m["legal"] != json!(true) {
+              // monitored hypothesis of SL.C06.reader_open_succeeds: the recorded schedule is not a
+              // schedule of the repaired protocol (a publish fell into the reader's open window, or
+              // a file of the manifest in force was removed)
+              s.disagree("monitor.legalFrom", case, json!({"thread": t, "call": k, "steps": steps, "trace": trace_json}), json!({"legal": false, "protected": m["protected"], "theorem": "SL.C06.reader_open_succeeds (hypothesis legalFrom false on this schedule)"}));
+            }
             let impl_failed = res["open"] != "ok";
             let model_failed = m["failed"] == json!(true);
             let copied_ok = impl_failed || m["copied"] == res["manifest"];
